@@ -22,6 +22,8 @@ FIX_INTENT = True
 FIX_SHUT = True
 # FixCancel = CancelPairingWithSKI ends a connection whose handshake is past the hello phase
 FIX_CANCEL = True
+# FixCancelOrder = CancelPairingWithSKI takes the trust away before it looks into the registry (under the registration lock)
+FIX_CANCEL_ORDER = True
 
 
 def collect(prop, tier):
@@ -34,7 +36,7 @@ def collect(prop, tier):
         binp = vlib.build_harness(sc, "hub2")
         b = lambda x: "TRUE" if x else "FALSE"
         with open(os.path.join(sd, "Hub2_M.cfg"), "w") as f:
-            f.write("SPECIFICATION Spec\nCONSTANTS MaxC = %d\n MaxDisturb = %d\n AtomicReg = %s\n FixStale = %s\n FixIntent = %s\n FixShut = %s\n FixCancel = %s\n Rich = TRUE\n Rich2 = TRUE\n Warm = FALSE\n IdWrong = {}\n EmitMode = \"none\"\n SimDepth = 0\n"
+            f.write("SPECIFICATION Spec\nCONSTANTS MaxC = %d\n MaxDisturb = %d\n AtomicReg = %s\n FixStale = %s\n FixIntent = %s\n FixShut = %s\n FixCancel = %s\n CancelSplit = FALSE\n FixCancelOrder = FALSE\n Rich = TRUE\n Rich2 = TRUE\n Warm = FALSE\n IdWrong = {}\n EmitMode = \"none\"\n SimDepth = 0\n"
                     "INVARIANT P_C05\nINVARIANT NoOrphan\nINVARIANT P_C10_trust\nINVARIANT P_C10_shut\nINVARIANT P_C09_pin\nCHECK_DEADLOCK FALSE\n"
                     % (3 if q else 4, 2, b(ATOMIC_REG), b(FIX_STALE), b(FIX_INTENT), b(FIX_SHUT), b(FIX_CANCEL)))
         model_note = None
@@ -47,6 +49,27 @@ def collect(prop, tier):
                 # specification, never a verdict about the code
                 raise vlib.Infra("stage M: Hub2 violates %s on the model (not a verdict about the code)" % m["violated"])
             print("stage M: Hub2, %d states generated, %d distinct" % (m["states"], m["distinct"]))
+            if prop == "C10":
+                # CancelPairingWithSKI as the two steps it is in the code, the library acting in between: with the order of the
+                # steps as in the tree the formulas hold; with the order it had before the repair TLC finds the dial that becomes
+                # a connection between the look into the registry and the clearing of the trust (control)
+                with open(os.path.join(sd, "Hub2_M.cfg")) as f:
+                    base = f.read().replace("CancelSplit = FALSE", "CancelSplit = TRUE").replace("MaxC = 4", "MaxC = 3")
+                for name, order, expect in (("Hub2_MC.cfg", FIX_CANCEL_ORDER, False), ("Hub2_MCN.cfg", False, True)):
+                    with open(os.path.join(sd, name), "w") as f:
+                        f.write(base.replace("FixCancelOrder = FALSE", "FixCancelOrder = %s" % b(order)))
+                    mc = vlib.tlc(sd, "Hub2", cfg=name, workers=8, timeout=3000)
+                    if mc["error"] and not mc["violated"]:
+                        raise vlib.Infra("TLC error in Hub2 (%s): %s\n%s" % (name, mc["error"], mc["tail"]))
+                    if bool(mc["violated"]) != expect:
+                        raise vlib.Infra("stage M: Hub2 with the cancel call in two steps (%s): %s (not a verdict about the code)"
+                                         % (name, "violates %s" % mc["violated"] if mc["violated"] else "the control is not violated"))
+                    if expect:
+                        print("stage M: control - the cancel call with its steps in the old order violates %s" % mc["violated"])
+                    else:
+                        m["states"] += mc["states"]
+                        m["distinct"] += mc["distinct"]
+                        print("stage M: Hub2 with the cancel call in two steps, %d states generated, %d distinct" % (mc["states"], mc["distinct"]))
             if prop == "C09":
                 # the same with a wrong stored SHIP id at one hub
                 with open(os.path.join(sd, "Hub2_M.cfg")) as f:
@@ -69,7 +92,7 @@ def collect(prop, tier):
                 ("warm", "TRUE", "TRUE", "{}"), ("wrongA", "FALSE", "TRUE", '{"A"}'), ("wrongB", "FALSE", "TRUE", '{"B"}')]
         for fi, (fam, rich, rich2, wrong) in enumerate(fams):
             with open(os.path.join(sd, "Hub2_G%s.cfg" % fam), "w") as f:
-                f.write("SPECIFICATION Spec\nCONSTANTS MaxC = 6\n MaxDisturb = 3\n AtomicReg = FALSE\n FixStale = FALSE\n FixIntent = FALSE\n FixShut = FALSE\n FixCancel = FALSE\n Rich = %s\n Rich2 = %s\n Warm = %s\n IdWrong = %s\n EmitMode = \"final\"\n SimDepth = %d\n"
+                f.write("SPECIFICATION Spec\nCONSTANTS MaxC = 6\n MaxDisturb = 3\n AtomicReg = FALSE\n FixStale = FALSE\n FixIntent = FALSE\n FixShut = FALSE\n FixCancel = FALSE\n CancelSplit = FALSE\n FixCancelOrder = FALSE\n Rich = %s\n Rich2 = %s\n Warm = %s\n IdWrong = %s\n EmitMode = \"final\"\n SimDepth = %d\n"
                         "ACTION_CONSTRAINT Emit\nCHECK_DEADLOCK FALSE\n" % (rich, rich2, "TRUE" if fam == "warm" else "FALSE", wrong, depth))
             g = vlib.tlc(sd, "Hub2", cfg="Hub2_G%s.cfg" % fam, workers=1, timeout=900, simulate="num=%d" % (300 if q else 3000), depth=depth,
                          tlc_seed=seed + 7 * fi)
@@ -169,6 +192,22 @@ def collect(prop, tier):
             with_dial = [s for s in rest if dial_at(s) >= 0]
             without = [s for s in rest if dial_at(s) < 0]
             fs = (best + with_dial[:n - n // 2 - n // 5] + without[:n // 5] + with_dial[n - n // 2 - n // 5:])[:n]
+            # a prefix of a behaviour is a behaviour: scripts that END where the user takes his word back right after the dial
+            # was triggered, so that the state at rest is judged there (the connection of that dial must be gone)
+            pre, seen_pre = [], set()
+            for s in sorted(keep, key=lambda s: -score(s)):
+                d = dial_at(s)
+                if d < 0 or d + 1 >= len(s["ops"]) or s["ops"][d + 1]["op"] not in ("Unregister", "Cancel"):
+                    continue
+                reg = {o["h"] for o in s["ops"][:d + 1] if o["op"] == "Register"} & {o["h"] for o in s["ops"][:d + 1] if o["op"] == "Appear"}
+                if s["ops"][d + 1]["h"] not in reg:
+                    continue
+                cut = dict(s, ops=s["ops"][:d + 2], prefix=True)
+                k = json.dumps(cut["ops"])
+                if k not in seen_pre:
+                    seen_pre.add(k)
+                    pre.append(cut)
+            fs = fs + pre[:(2 if q else 12)]
             for j, s in enumerate(fs):
                 s["burst"] = 1 + 2 * (j % 2)
                 # a slow network for the scripts whose next user operation follows the dial trigger without a rest, and for every
@@ -176,6 +215,8 @@ def collect(prop, tier):
                 d = dial_at(s)
                 nxt = s["ops"][d + 1]["op"] if 0 <= d < len(s["ops"]) - 1 else ""
                 s["slowDial"] = 40 if (nxt in ("Unregister", "Cancel", "Register", "AutoOff", "Disappear") or j % 4 == 3) else 0
+                # CancelPairingWithSKI is held between its two steps until a dial that is under way became a connection
+                s["gate"] = s["slowDial"] > 0 and any(o["op"] == "Cancel" for o in s["ops"])
                 # both SKI orderings: the specification calls the hub with the higher SKI "A"; with high = "B" the script is the
                 # mirror image (the model is symmetric in the two users' operations)
                 s["high"] = "AB"[(j // 2) % 2]
